@@ -142,3 +142,12 @@ CASES += [
     m("roll-back swallows the refusal", "C19-M",
       "                self.storage_resolution = resolution_saved\n            raise\n", "                self.storage_resolution = resolution_saved\n"),
 ]
+
+_T2P_OLD = ("    for dtype in types:\n        try:\n            ddata = obj._d__data[dtype]\n        except KeyError:\n            # set to None if dtype not present\n"
+            "            ddata = None\n        except AttributeError:\n            # no data\n            ddata = None\n            \n"
+            "        if ddata is not None:\n            if data is not None:\n                data += ddata\n            else:\n                data = ddata\n\n    return data\n\n\ndef _types_to_signals")
+_T2P_NEW = ("    try:\n        for dtype in types:\n            ddata = obj._d__data[dtype]\n            if data is not None:\n                data += ddata\n"
+            "            else:\n                data = ddata\n    except (KeyError, AttributeError):\n        pass\n\n    return data\n\n\ndef _types_to_signals")
+CASES += [
+    m("one handler around the loop over the types of a process (seeded change of round 7)", "C19-N", _T2P_OLD, _T2P_NEW),
+]
